@@ -689,6 +689,14 @@ func (w *world) connRename() {
 	id := w.m.Boxes[from].ID
 	to := w.connName("connRename/to")
 
+	// sometimes the new name differs from the current one in letter case only (mailbox names other than INBOX are
+	// case-sensitive: that is a rename like any other)
+	if w.draw(5, "connRename/caseOnly") == 0 {
+		if alt := flipLetterCase(from, w.draw(4, "connRename/which")); alt != from {
+			to = alt
+		}
+	}
+
 	w.steerStaleSub(func(m *ns.Model) { m.ConnRename(id, to, recoveryID) })
 
 	ok := w.m.ConnRename(id, to, recoveryID)
@@ -1284,4 +1292,26 @@ func TestC14Namespace(t *testing.T) {
 	ev.Checks(700, 3000)
 	setSteps(14)
 	rapid.Check(t, run)
+}
+
+// flipLetterCase changes the case of the k-th ASCII letter of the last name component (k counted modulo their number).
+func flipLetterCase(name string, k int) string {
+	start := strings.LastIndexAny(name, "/.") + 1
+
+	var letters []int
+
+	for i := start; i < len(name); i++ {
+		if c := name[i]; c >= 'a' && c <= 'z' || c >= 'A' && c <= 'Z' {
+			letters = append(letters, i)
+		}
+	}
+
+	if len(letters) == 0 {
+		return name
+	}
+
+	b := []byte(name)
+	b[letters[k%len(letters)]] ^= 0x20
+
+	return string(b)
 }
